@@ -2,6 +2,7 @@ import FsModel.Driver
 import FsModel.DriverGrid
 import FsModel.Mst
 import FsModel.MstCert
+import FsModel.UnionFind
 import FsModel.Spl
 import FsModel.Blocks
 
@@ -37,8 +38,17 @@ def callBgraph (c : Call) (st : St) : List String :=
   let f := fromList 0.0 (((findInp c "bg_elev").getD []).map hexF)
   let perm := ((findInps c "perm").headD []).tail.map natOf
   let useB := c.toks.getD 1 "k" == "b"
-  let bg := Fs.Mst.basinGraph S st.topo st.mask st.isBase (recv0 g) g.dfs (look b.labels 0) b.outlets f useB perm
+  let bg0 := Fs.Mst.basinGraph S st.topo st.mask st.isBase (recv0 g) g.dfs (look b.labels 0) b.outlets f useB perm
     Fs.Gen.maxLowDegree
+  -- Kruskal: the tree printed here comes from the statement-by-statement model of the C++
+  -- union-find (`Fs.UF.kruskalUF`: two-pass path compression, union by rank), which
+  -- `Fs.C15.kruskalUF_eq` proves equal to the class-map Kruskal all theorems are about
+  let bg : Fs.Mst.BG F :=
+    if useB then bg0
+    else
+      let cbk := Fs.Mst.connectBasins S st.topo st.mask st.isBase (recv0 g) g.dfs (look b.labels 0) b.outlets f
+      let o := Fs.Mst.orient b.outlets.length cbk.edges (Fs.UF.kruskalUF b.outlets.length cbk.edges perm) cbk.root
+      { bg0 with edges := o.1, tree := o.2 }
   let sgn (x : Nat) : String := if x = Fs.Mst.none then "-1" else toString x
   -- certificate (soundness: `Fs.C15.certOk_sound`): the raw tree of the chosen method, before
   -- orientation, is a minimum-weight spanning forest of the lowest-pass edges
